@@ -22,6 +22,9 @@ func VP_C08_Reset() {
 	// two commits over two files, one in a directory
 	f1 := vpPath("fa", 1, zzvp.Param("complen", 1))
 	f2 := vpComp("fd", zzvp.Param("complen", 1)) + "/" + vpComp("fb", zzvp.Param("complen", 1))
+	if zzvp.Choose(2) == 1 {
+		f2 = vpComp("fd", zzvp.Param("complen", 1)) + "/" + vpComp("fe", 1) + "/" + vpComp("fb", zzvp.Param("complen", 1))
+	}
 	zzvp.Assume(f1 != f2 && !vpHasDirPrefix(f2, f1))
 	c1a, c1b := zzvp.Bytes("c1a", 1, ""), zzvp.Bytes("c1b", 1, "")
 	zzvp.WriteFile(w+"/"+f1, c1a)
@@ -46,8 +49,9 @@ func VP_C08_Reset() {
 		zzvp.RemoveAll(w + "/" + f2)
 	case 3:
 		// remove the whole directory of f2
+		// (the top-most directory: every level above the file is missing afterwards)
 		d := f2
-		for i := 0; i < len(f2); i++ {
+		for i := len(f2) - 1; i >= 0; i-- {
 			if f2[i] == '/' {
 				d = f2[:i]
 			}
